@@ -62,7 +62,7 @@ Theorem C10_teardown_progress : forall ctl st e, reachable ctl st ->
   exists st', td_next st = Some st' /\ (td_measure st' < td_measure st)%nat /\
     (c_status st' = TearingDown e \/ c_status st' = Draining e \/
      (c_status st' = Broken e /\ pending_rids st' = [] /\ c_err_sent st' = true)).
-Proof. intros ctl st e H. exact (td_next_progress st e (inv_reachable _ _ H)). Qed.
+Proof. exact td_progress_reachable. Qed.
 
 (* ... after receiver.close() no step of anybody makes the remaining work grow ... *)
 Theorem C10_draining_monotone : forall st l st' e,
@@ -75,7 +75,7 @@ Theorem C10_teardown_terminates : forall ctl n st e, reachable ctl st ->
   c_status st = TearingDown e \/ c_status st = Draining e -> (td_measure st <= n)%nat ->
   c_status (teardown n st) = Broken e /\ pending_rids (teardown n st) = [] /\
   c_err_sent (teardown n st) = true.
-Proof. intros ctl n st e H. exact (td_terminates n st e (inv_reachable _ _ H)). Qed.
+Proof. exact td_terminates_reachable. Qed.
 
 Theorem C10_teardown_is_a_run : forall fuel st, exists ls, run st ls = Some (teardown fuel st) /\
   Forall (fun l => l = TdStep \/ exists r, l = Push r) ls /\ (List.length ls <= fuel)%nat.
